@@ -324,6 +324,14 @@ class VIMapIterator:
         return next(self._gen)
 
 
+class _Star:
+    def __init__(self, func):
+        self.func = func
+
+    def __call__(self, args):
+        return self.func(*args)
+
+
 class VPool:
     def __init__(self, processes=None, *a, **k):
         self.n = processes or 1
@@ -365,6 +373,25 @@ class VPool:
         self.spawned.extend(tids)
         s.park(dict(kind="step"))  # the tasks are now runnable alongside the caller
         return VAsyncResult(tids, res, errs, order)
+
+    def starmap(self, func, items):
+        return self.map(_Star(func), items)
+
+    def imap(self, func, iterable, chunksize=1):
+        """Ordered variant: results come in submission order whatever the completion order, so there is nothing to
+        explore; tasks and results are pickled as on the real pool."""
+        fblob = pickle.dumps(func)
+        for item in list(iterable):
+            yield pickle.loads(pickle.dumps(pickle.loads(fblob)(pickle.loads(pickle.dumps(item)))))
+
+    def close(self):
+        pass
+
+    def terminate(self):
+        self.__exit__()
+
+    def join(self):
+        pass
 
     # ---- order mode
     def imap_unordered(self, func, iterable, chunksize=1):
